@@ -2,14 +2,14 @@
 # usage: refcheck.sh <dir containing rN/patch.diff ...> : behaviour-preserving refactorings must leave every check silent
 export GOFLAGS=-mod=mod GOPROXY=off GOSUMDB=off GOTOOLCHAIN=local GOWORK=off
 root=$1
-props=$(/verif/bin/dhtlint -gen-manifest | python3 -c "import json,sys; print(' '.join(c['property_id'] for c in json.load(sys.stdin)['checks']))")
+props=$(${DHTLINT:-/verif/bin/dhtlint} -gen-manifest | python3 -c "import json,sys; print(' '.join(c['property_id'] for c in json.load(sys.stdin)['checks']))")
 for d in $root/r*; do
   [ -f $d/patch.diff ] || continue
   wt=/tmp/rc_$$_$(basename $d); git -C /repo worktree add -q --detach $wt HEAD || continue
   if ! ( cd $wt && git apply $d/patch.diff ); then echo "## $d PATCH FAILS"; git -C /repo worktree remove --force $wt; continue; fi
   if ! ( cd $wt && go build ./... ); then echo "## $d BUILD FAILS"; git -C /repo worktree remove --force $wt; continue; fi
   echo "## $d"
-  echo $props | tr ' ' '\n' | xargs -P 5 -I{} bash -c "/verif/bin/dhtlint -repo $wt -property {} -no-evidence 2>&1 | grep -E '^(VIOLATION|BROKEN)' | sed -e 's#replay=[^ ]* ##' | cut -c1-300"
+  echo $props | tr ' ' '\n' | xargs -P 5 -I{} bash -c "${DHTLINT:-/verif/bin/dhtlint} -repo $wt -property {} -no-evidence 2>&1 | grep -E '^(VIOLATION|BROKEN)' | sed -e 's#replay=[^ ]* ##' | cut -c1-300"
   git -C /repo worktree remove --force $wt
 done
 echo "== refcheck done"
